@@ -16,14 +16,14 @@ func init() {
 
 func runC01(a *A) {
 	a.Rule("ordtab/contains", 1, a.ruleContains)
-	a.Rule("ordtab/take-keep", 6, func() {
+	a.Rule("ordtab/take-keep", 3, func() { // at least one cut per extracting method
 		W := a.Named("window", "TumblingWindow")
 		n := 0
 		for _, m := range []string{"extractWindowDataLocked", "Trigger", "extractLateUpdateDataLocked"} {
 			n += a.ruleTakeKeep(W, a.Method("window", "TumblingWindow", m), tkSpec{})
 		}
 	})
-	a.Rule("shape/slot-stamp", 3, func() {
+	a.Rule("shape/slot-stamp", 2, func() {
 		W := a.Named("window", "TumblingWindow")
 		for _, m := range []string{"extractWindowDataLocked", "Trigger", "extractLateUpdateDataLocked"} {
 			a.ruleSlotStamp(W, a.Method("window", "TumblingWindow", m))
